@@ -65,6 +65,20 @@ def run(check):
         g = runfam.gen_terminating(check.seed, "c03-%d" % i, p_fail=0.35, outcomes=["error", "alt", "crash", "drop", "deployfail"])
         if g is not None:
             gs.append(g)
+    # run-time evaluation faults: an output (or a wait-optional field of it, or the input of a step) whose expression
+    # cannot be evaluated over the produced values is not producible
+    nf = check.pick(80, 1200)
+    for i in range(nf):
+        rng = random.Random(derive_seed(check.seed, "c03-fault", i))
+        g = runfam.gen_terminating(check.seed, "c03-f%d" % i, p_fail=0.2, outcomes=["error", "alt", "crash", "deployfail"],
+                                   shape=rng.choice(["chain", "diamond", "fan_in", "wait_for", "deploy_expr", "multiref"]))
+        if g is None:
+            continue
+        prog = g["program"]
+        what = gen.add_fault(rng, prog.steps, prog.outputs, optional=rng.choice(["", "", "wait"]))
+        g["scripts"] = gen.make_scripts(prog.steps, g["outcome"])
+        g["shape"] = "%s/evalfault(%s)" % (g["shape"], what)
+        gs.append(g)
     items = []
     for i, g in enumerate(gs):
         rng = random.Random(derive_seed(check.seed, "c03-opt", i))
